@@ -332,7 +332,8 @@ macro_rules! proofs {
 // @harness c18_vec_i64_null_2x3_e2 tier=thorough unwind=6 block=128 mem=40 timeout=3600 stretch
 // @harness c18_vec_i64_null_3x2_e2 tier=thorough unwind=6 block=128 mem=40 timeout=3600 stretch
 // @harness c18_vec_i64_solve_1x2_e3 tier=thorough unwind=6 block=128 mem=21 timeout=2829
-// @harness c18_vec_i64_solve_2x1_e3 tier=quick unwind=6 block=128 mem=12 timeout=3182
+// @harness c18_vec_i64_solve_2x1_e3 tier=thorough unwind=6 block=128 mem=12 timeout=3182
+// @harness c18_vec_i64_solve_2x1_e2 tier=quick unwind=6 block=128 mem=10 timeout=1800
 // @harness c18_vec_i64_solve_2x2_e2 tier=thorough unwind=6 block=128 mem=26 timeout=3600
 // @harness c18_vec_i64_solve_2x2_e2_reach tier=thorough unwind=6 block=128 mem=40 timeout=3600 twin stretch
 // @harness c18_vec_i64_detinv_1_e3 tier=thorough unwind=6 block=128 mem=11 timeout=1216
@@ -352,10 +353,11 @@ macro_rules! proofs {
 // @harness c18_vec_z7_detinv_2 tier=thorough unwind=8 block=128 mem=40 timeout=3600 stretch
 // @harness c18_vec_i64_rank_2x1_e3_reach tier=quick unwind=6 block=128 mem=6 timeout=1200 twin
 // @harness c18_vec_i64_null_1x2_e3_reach tier=quick unwind=6 block=128 mem=8 timeout=1200 twin
-// @harness c18_vec_i64_solve_2x1_e3_reach tier=quick unwind=6 block=128 mem=11 timeout=1309 twin
+// @harness c18_vec_i64_solve_2x1_e3_reach tier=thorough unwind=6 block=128 mem=11 timeout=1309 twin
+// @harness c18_vec_i64_solve_2x1_e2_reach tier=quick unwind=6 block=128 mem=10 timeout=1309 twin
 // @harness c18_vec_i64_detinv_1_e3_reach tier=thorough unwind=6 block=128 mem=6 timeout=1200 twin
 // @harness c18_vec_z7_rank_2x1_reach tier=quick unwind=8 block=128 mem=6 timeout=1200 twin
-// @harness c18_vec_i64_echdet_2_e1 tier=quick unwind=6 block=128 mem=16 timeout=1800
+// @harness c18_vec_i64_echdet_2_e1 tier=thorough unwind=6 block=128 mem=16 timeout=1800
 // @harness c18_vec_i64_echdet_2_e2 tier=thorough unwind=6 block=128 mem=40 timeout=3600 stretch
 proofs! {
     c18_vec_i64_echdet_2_e1 => echelon_det_body::<2>(1, false);
@@ -382,6 +384,8 @@ proofs! {
     c18_vec_i64_null_3x2_e2 => nullspace_body::<i64, 3, 2>(2, false);
     c18_vec_i64_solve_1x2_e3 => solve_body::<i64, 1, 2, 3>(3, false);
     c18_vec_i64_solve_2x1_e3 => solve_body::<i64, 2, 1, 2>(3, false);
+    c18_vec_i64_solve_2x1_e2 => solve_body::<i64, 2, 1, 2>(2, false);
+    c18_vec_i64_solve_2x1_e2_reach => solve_body::<i64, 2, 1, 2>(2, true);
     c18_vec_i64_solve_2x2_e2 => solve_body::<i64, 2, 2, 3>(2, false);
     c18_vec_i64_solve_2x2_e2_reach => solve_body::<i64, 2, 2, 3>(2, true);
     c18_vec_i64_detinv_1_e3 => det_inverse_body::<i64, 1>(3, false);
